@@ -122,6 +122,8 @@ def gen_fields(rng, depth, used_types, self_ok=True):
         elif r < 0.80:
             f = {"k": "virtual", "setter": rng.random() < 0.4}
             if rng.random() < 0.4:
+                f["getter"] = "annotated"
+            if rng.random() < 0.4:
                 f["help"] = rng.choice(HELPS[2:])
         else:
             f = {"k": "method", "sig": gen_sig(rng)}
@@ -223,6 +225,15 @@ def build_field(f, env):
         return core.ConfigTypeField(build_ctype(f, env))
     if k == "virtual":
         kw = {"help": f["help"]} if f.get("help") else {}
+        if f.get("getter") == "annotated":
+            # an ordinary function with annotations, some of which only a type checker can resolve (type-only imports, forward references)
+            ns = {}
+            exec("def getter(cfg: 'Config') -> 'OnlyForTheTypeChecker':\n    return 1\n"
+                 "def getter2(cfg: 'cincoconfig.Config', *, unit: 'Unit' = None) -> int:\n    return 1\n"
+                 "def setter(cfg: 'Config', value: 'Unresolvable') -> None:\n    return None\n", ns)
+            if f.get("setter"):
+                return cc.VirtualField(ns["getter"], setter=ns["setter"], **kw)
+            return cc.VirtualField(ns["getter2"] if f.get("help") else ns["getter"], **kw)
         if f.get("setter"):
             return cc.VirtualField(lambda cfg: 1, setter=lambda cfg, v: None, **kw)
         return cc.VirtualField(lambda cfg: 1, **kw)
